@@ -328,7 +328,7 @@ def parse_kani_log(text, res):
     # concrete playback blocks
     plays = []
     for blk in text.split('Concrete playback unit test for')[1:]:
-        pm = re.search(r'/// Check for `(\w+)`: "(.*?)"\s*\n\s*#\[test\]', blk, re.S)
+        pm = re.search(r'/// Check for `(\w+)`: "(.*?)"[ \t]*\n(?:///[ \t]*\n|[ \t]*\n|#\[test\])', blk, re.S)
         vm0 = re.search(r'let concrete_vals: Vec<Vec<u8>> = vec!\[(.*?)\n\s*\];', blk, re.S)
         if not pm or not vm0:
             continue
